@@ -42,7 +42,7 @@ def run(run_, ctx):
     ])
     run_.floor("ST", 20)
     run_.floor("UN", 40)
-    run_.floor("D", 2)
+    run_.floor("D", 1)
     run_.floor("M", 14)
     run_.floor("O", 1)
     F = ctx.facts("A")
